@@ -33,6 +33,7 @@ def run(chk, F):
     chk.guard("keyword-table", "datepatterns.txt", lambda: keywords(chk, F))
     chk.guard("scale-constants", "to/from_duration", lambda: scales(chk, F))
     chk.guard("offset-arithmetic", "parse_date", lambda: offset_arith(chk, F))
+    chk.guard("operator-table", "Value Add/Sub", lambda: operator_table(chk, F))
     import castaudit
     chk.guard("no-silent-wrap", "cast audit", lambda: castaudit.run(chk, F, "C14"))
     chk.floor("no-silent-wrap", 12, "(date-field casts in parse_date and DateReply::new)")
@@ -297,3 +298,33 @@ def offset_arith(chk, F):
         if tbl.get("Plus") == "1" and tbl.get("Dash") in ("Neg(1)", "-1"):
             ok = True
     chk.decide(ok, "offset-arithmetic", "rink_core::parsing::datetime::parse_date", "sign-table", fn.where(), "`+` is +1 and `-` is -1", "the offset sign table is not {+: 1, -: -1}")
+
+
+def operator_table(chk, F):
+    """date + duration and duration + date are the same instant; date - duration and date - date are defined; duration - date
+    is not a date (it must fall through to "Operation is not defined", not be read as date - duration)."""
+    import hirutil as H
+    from facts import hir_walk
+    out = {}
+    for op in ("Add", "Sub"):
+        fns = [f for f in F.by_crate["rink_core"] if f.path == "<&'a runtime::value::Value as core::ops::arith::%s<&'b runtime::value::Value>>::%s" % (op, op.lower())]
+        if len(fns) != 1:
+            raise AnchorLost("Value::%s not found" % op.lower())
+        h = F.hir_of(fns[0])
+        ms = [m for m in hir_walk(h["body"]) if m.get("k") == "Match" and m.get("src") == "Normal"]
+        pats = []
+        for a in ms[0]["arms"]:
+            ptxt = H.pat_str(a["pat"])
+            for alt in ptxt.split(" | "):
+                kinds = __import__("re").findall(r"Value::(\w+)", alt)
+                if len(kinds) >= 2:
+                    pats.append((kinds[0], kinds[1]))
+        out[op] = (fns[0], pats, ms[0]["line"])
+    fa, pa, la = out["Add"]
+    fs, ps, ls = out["Sub"]
+    chk.decide(("DateTime", "Number") in pa and ("Number", "DateTime") in pa, "operator-table", "rink_core::Value::add", "date-plus-duration-commutes",
+               "%s:%d" % (fa.file, la), "date + duration and duration + date are both defined", "Value::add arms: %s" % pa)
+    chk.decide(("DateTime", "Number") in ps and ("DateTime", "DateTime") in ps and ("Number", "DateTime") not in ps, "operator-table", "rink_core::Value::sub",
+               "duration-minus-date-undefined", "%s:%d" % (fs.file, ls),
+               "date - duration and date - date are defined, duration - date is not",
+               "Value::sub arms: %s - `duration - date` is accepted%s" % (ps, " and evaluated as date - duration" if ("Number", "DateTime") in ps else ""))
